@@ -175,7 +175,13 @@ func init() {
 		u.fn("rv_iface", []string{"RV"}, "Iface")
 		tt := u.tagOfRtype(t)
 		u.libpre(fr, st, "reflect.Value.Convert", and(app("rv_valid", v), fmt.Sprintf("(distinct (ityp %s) T_nil)", t), u.convertibleDef(app("rv_type", v), tt)), pos, "reflect: Convert of a value that is not convertible panics")
-		r := u.w.newConst("rvconv", "RV")
+		u.fn("rv_convert", []string{"RV", "TypeTag"}, "RV")
+		r := app("rv_convert", v, tt)
+		ck := "rvconv:" + r
+		if u.frameDone[ck] {
+			return &Val{K: vTerm, T: r, Ty: resTy}
+		}
+		u.frameDone[ck] = true
 		u.fact(app("rv_valid", r))
 		u.fact(eq(app("rv_type", r), tt))
 		u.fact(eq(fmt.Sprintf("(ityp (rv_iface %s))", r), tt))
@@ -270,9 +276,14 @@ func init() {
 		u.fn("rv_isnil", []string{"RV"}, "Bool")
 		isPtr := fmt.Sprintf("(= %s 22)", rvKind(u, v))
 		e := app("rv_elem", v)
-		r := u.w.newConst("indirect", "RV")
-		u.fact(eq(r, ite(isPtr, e, v)))
-		u.fact(implies(isPtr, and(eq(app("rv_valid", e), not(app("rv_isnil", v))), eq(app("rv_type", e), fmt.Sprintf("(elemT (rv_type %s))", v)))))
+		u.fn("rv_indirect", []string{"RV"}, "RV")
+		r := app("rv_indirect", v)
+		ck := "rvind:" + r
+		if !u.frameDone[ck] {
+			u.frameDone[ck] = true
+			u.fact(eq(r, ite(isPtr, e, v)))
+			u.fact(implies(isPtr, and(eq(app("rv_valid", e), not(app("rv_isnil", v))), eq(app("rv_type", e), fmt.Sprintf("(elemT (rv_type %s))", v)))))
+		}
 		return &Val{K: vTerm, T: r, Ty: resTy}
 	})
 
